@@ -212,6 +212,10 @@ pub struct Cfg {
     pub label: &'static str,
     /// an OpenTelemetry subscriber is installed: the transmitted trace id comes from the span context
     pub otel: bool,
+    /// 0 none, 1 formatting subscriber, 2 OpenTelemetry (always-on sampler), 3 OpenTelemetry (always-off sampler)
+    pub sub: u8,
+    /// under OpenTelemetry: handlers make their nested call with `context::current()`
+    pub nested_with_current: bool,
 }
 impl Cfg {
     pub fn random(seed: u64) -> Cfg {
@@ -233,13 +237,15 @@ impl Cfg {
             leaf_gate: true,
             label: "random",
             otel: false,
+            sub: 0,
+            nested_with_current: false,
         }
     }
     pub fn to_json(&self) -> serde_json::Value {
         json!({"family": "S-e2e", "label": self.label, "seed": self.seed, "depth": self.depth,
             "transports": format!("{:?}", self.transports), "ncalls": self.ncalls,
             "deadlines_ms(None=expired)": format!("{:?}", self.deadlines), "abandon_pct": self.abandon_pct,
-            "max_chunk": self.max_chunk, "pending_pct": self.pending_pct, "real_transit": self.real_transit, "otel_subscriber": self.otel})
+            "max_chunk": self.max_chunk, "pending_pct": self.pending_pct, "real_transit": self.real_transit, "otel_subscriber": self.otel, "subscriber_mode": self.sub, "nested_with_current": self.nested_with_current})
     }
 }
 
@@ -253,7 +259,7 @@ struct Task {
 
 #[derive(Clone, Debug)]
 pub enum HEv {
-    Start { hop: usize, call: String, deadline: Instant, trace: trace::Context, t: Instant },
+    Start { hop: usize, call: String, deadline: Instant, trace: trace::Context, t: Instant, current_deadline: Instant, current_trace: trace::Context },
     Finish { hop: usize, call: String },
     Drop { hop: usize, call: String, finished: bool },
 }
@@ -274,6 +280,7 @@ struct HopServe {
     sh: Rc<RefCell<Shared>>,
     next: Option<client::Channel<String, String>>,
     leaf_gate: bool,
+    nested_with_current: bool,
 }
 struct LeafGate {
     sh: Rc<RefCell<Shared>>,
@@ -310,7 +317,9 @@ impl Serve for HopServe {
     type Req = String;
     type Resp = String;
     async fn serve(self, ctx: context::Context, req: String) -> Result<String, ServerError> {
-        self.sh.borrow_mut().hev.push(HEv::Start { hop: self.hop, call: req.clone(), deadline: ctx.deadline, trace: ctx.trace_context, t: Instant::now() });
+        let cur = context::current();
+        self.sh.borrow_mut().hev.push(HEv::Start { hop: self.hop, call: req.clone(), deadline: ctx.deadline, trace: ctx.trace_context, t: Instant::now(), current_deadline: cur.deadline, current_trace: cur.trace_context });
+        let ctx = if self.nested_with_current { cur } else { ctx };
         let mut note = DropNote { sh: self.sh.clone(), hop: self.hop, call: req.clone(), finished: false };
         let out = if let Some(next) = &self.next {
             // nested call with the handler's own context
@@ -506,7 +515,7 @@ async fn run_inner(cfg: &Cfg, out: &mut Outcome) {
     let mut head: Option<client::Channel<String, String>> = None;
     for hop in (0..cfg.depth).rev() {
         let (ct, st): (DynC, DynS) = make_link(cfg.transports[hop], hop, &log, mix(cfg.seed, hop as u64), cfg);
-        let serve = HopServe { hop, depth: cfg.depth, sh: sh.clone(), next: next_client.take(), leaf_gate: cfg.leaf_gate };
+        let serve = HopServe { hop, depth: cfg.depth, sh: sh.clone(), next: next_client.take(), leaf_gate: cfg.leaf_gate, nested_with_current: cfg.nested_with_current && cfg.otel };
         let base = BaseChannel::with_defaults(st);
         let drv = Driver { reqs: Box::pin(base.requests()), serve, sh: sh.clone(), hop };
         tasks.push(Task { name: format!("server{hop}"), fut: Some(Box::pin(drv)), flag: flag(), is_caller: None });
@@ -807,6 +816,18 @@ fn final_oracles(cfg: &Cfg, sh: &Rc<RefCell<Shared>>, calls: &[CallRec], log: &W
                 HEv::Start { hop: h, call, deadline, trace, .. } if *h == hop && *call == c.body => Some((*deadline, *trace)),
                 _ => None,
             });
+            if cfg.otel {
+                if let Some(HEv::Start { deadline, current_deadline, trace, current_trace, .. }) = s.hev.iter().find(|e| matches!(e, HEv::Start { hop: h, call, .. } if *h == hop && *call == c.body)) {
+                    if current_deadline != deadline {
+                        let d = if current_deadline > deadline { *current_deadline - *deadline } else { *deadline - *current_deadline };
+                        out.viol("C07", "current-context-deadline-differs", format!("call {} hop {hop}: context::current() inside the handler reports a deadline {d:?} away from the request's deadline (OpenTelemetry subscriber, sampler {})", c.body, if cfg.sub == 3 { "always-off" } else { "always-on" }));
+                    }
+                    if current_trace.trace_id != trace.trace_id {
+                        out.viol("C18", "current-context-trace-differs", format!("call {} hop {hop}: context::current() inside the handler reports another trace id than the handler's context", c.body));
+                    }
+                    out.cell(format!("C07.current-context.sub{}", cfg.sub));
+                }
+            }
             let (Some(sent), Some(recv)) = (sent, recv) else { break };
             let (Item::Req { trace: wt, id: wid, .. }, Item::Req { deadline: rd, trace: rt, .. }) = (&sent.item, &recv.item) else { break };
             let serde_link = matches!(cfg.transports[hop], Tk::Json | Tk::Bincode);
@@ -966,6 +987,7 @@ fn final_oracles(cfg: &Cfg, sh: &Rc<RefCell<Shared>>, calls: &[CallRec], log: &W
     }
     if cfg.otel {
         out.cell("C18.otel-subscriber");
+        out.cell(format!("e2e.subscriber-mode{}", cfg.sub));
         // keep the wire view of the requests in the witness
         for e in log.iter().filter(|e| e.c2s && e.send) {
             if let Item::Req { id, body, trace, .. } = &e.item {
